@@ -231,6 +231,9 @@
   (add "if-const" (mkfn [] (tuple 'if (tuple f ;(map q args)) :T :F)) [] truthy-xform)
   (add "while" (mkfn ps '(var r :F) (tuple 'while (tuple f ;ps) '(set r :T) '(break)) 'r) args truthy-xform)
   (add "while-nilconst" (mkfn ps '(var r :F) (tuple 'while (tuple f ;(nilc args)) '(set r :T) '(break)) 'r) args truthy-xform)
+  (add "while-const" (mkfn [] '(var r :F) (tuple 'while (tuple f ;(map q args)) '(set r :T) '(break)) 'r) [] truthy-xform)
+  (add "if-const-nobranch" (mkfn [] (tuple 'if (tuple f ;(map q args)) :T)) []
+       (fn [tr] (def t (truthy-xform tr)) (def [st v] (last t)) (when (and (= st :dead) (= v ":F")) (put t (- (length t) 1) [st "nil"])) t))
   (add "not-if" (mkfn ps (tuple 'if (tuple 'not (tuple f ;ps)) :F :T)) args truthy-xform)
   r)
 
